@@ -24,6 +24,17 @@ def run(ctx: Context) -> None:
     ctx.rule('R19.5', "ravel gives linear index order whatever the variable's own dimension order: the flattened dimensions are the convention's grid_dimensions[kind] (shared with C03)", floor=1)
     from .common import adopt_foundations as _adopt
     _adopt(ctx, 'R19.6', ['geometry', 'order'], floor=60)
+    ctx.rule('R19.8', "what the caller gave (a variable or its name, a coordinate, a projection, a title) is what is drawn: defaults are substituted only where nothing was given, names are looked up only where something was", floor=6)
+    with ctx.section('R19.8'):
+        from . import infra as _infra198
+        _infra198.keyword_overrides_kept(ctx, 'R19.8', ['emsarray.conventions._base.Convention.make_poly_collection', 'emsarray.conventions._base.Convention.make_quiver'],
+                                         ['array', 'clim', 'transform'])
+        _infra198.none_default_discipline(ctx, 'R19.8', ['emsarray.conventions._base.Convention.make_poly_collection', 'emsarray.conventions._base.Convention.make_quiver', 'emsarray.conventions._base.Convention.animate_on_figure',
+                                                         'emsarray.plot.animate_on_figure', 'emsarray.plot.plot_on_figure'])
+    ctx.rule('R19.7', "the deprecated alias make_patch_collection is make_poly_collection: the data array and every extra argument are passed on", floor=2)
+    with ctx.section('R19.7'):
+        from . import infra as _infra7
+        _infra7.passes_parameters_on(ctx, 'R19.7', 'emsarray.conventions._base.Convention.make_patch_collection', "make_patch_collection stands for make_poly_collection")
     ctx.assume("matplotlib PolyCollection pairs array[k] with verts[k]; Quiver pairs U[k], V[k] with X[k], Y[k]")
 
     from ..pattern import Matcher
@@ -246,6 +257,10 @@ from ..variants import V  # noqa: E402
 _B = 'src/emsarray/conventions/_base.py'
 _P = 'src/emsarray/plot.py'
 VARIANTS = [
+    V('C19', 'transform-override-replaced', 'src/emsarray/conventions/_base.py', "        if 'transform' not in kwargs:\n            kwargs['transform'] = self.data_crs\n\n        return polygons_to_collection", "        if 'transform' in kwargs:\n            kwargs['transform'] = self.data_crs\n\n        return polygons_to_collection", 'R19.8'),
+    V('C19', 'animation-coordinate-discarded', 'src/emsarray/conventions/_base.py', "        if coordinate is None:\n            # Assume the user wants to plot along the time axis by default.", "        if coordinate is not None:\n            # Assume the user wants to plot along the time axis by default.", 'R19.8'),
+    V('C19', 'animation-scalar-name-never-resolved', 'src/emsarray/conventions/_base.py', "        if scalar is not None:\n            scalar = utils.name_to_data_array(self.dataset, scalar)\n            if coordinate_dim", "        if scalar is None:\n            scalar = utils.name_to_data_array(self.dataset, scalar)\n            if coordinate_dim", 'R19.8'),
+    V('C19', 'patch-collection-alias-drops-kwargs', 'src/emsarray/conventions/_base.py', "        return self.make_poly_collection(data_array, **kwargs)", "        return self.make_poly_collection(data_array)", 'R19.7'),
     V('C19', 'values-unmasked', _B, "            values = data_array.values[self.mask]", "            values = data_array.values", 'R19.1'),
     V('C19', 'polygons-unmasked', _B, "        return polygons_to_collection(self.polygons[self.mask], **kwargs)", "        return polygons_to_collection([p for p in self.polygons if p is not None and p.is_valid], **kwargs)", 'R19.1'),
     V('C19', 'poly-collection-any-grid-kind', _B, "            grid_kind = self.get_grid_kind(data_array)\n            if grid_kind != self.default_grid_kind:\n                raise ValueError(\n                    f\"Data array is defined on the {grid_kind} grid, \"", "            grid_kind = self.get_grid_kind(data_array)\n            if False:\n                raise ValueError(\n                    f\"Data array is defined on the {grid_kind} grid, \"", 'R19.1'),
